@@ -1,4 +1,5 @@
 import SciVerif.Lemmas.StuckCore
+import SciVerif.Lemmas.Net
 import SciVerif.Lemmas.Slots
 import SciVerif.Props.C16
 import SciVerif.Props.C08
@@ -24,10 +25,22 @@ Finiteness and absence of deadlock, per mechanism:
   terminated; the facts it starts from are stated as a structure (`StuckCore.Facts`) and are the
   consequences of the channel / queue / slot invariants above in a stuck state.
 
-What is missing for the full statement: deriving `Facts` inside one network-level operational model
-(so that it is a lemma and not a hypothesis); the network-level composition is exercised by the
-harness over random DAG workflows instead. Negative: `c05_needs_buffer` — with
-rendezvous channels (B = 0) the facts admit a stuck state with unterminated nodes (finding F18).
+Whole network, operationally (`Model/Net.lean`: per process the number of tasks created / forwarded
+and whether it returned; channel occupancy is the difference of two counters):
+* `c05_network_no_deadlock`: in every reachable state of a balanced acyclic network with buffer
+  size ≥ 1 in which some process has not returned, some step is possible;
+* `c05_network_runs_are_finite`: every run has at most `n·(2N+1)` steps;
+* `c05_network_complete`: a run that cannot be extended ends with every process returned after
+  having created and forwarded exactly `N` tasks (nothing is lost, nothing is left in flight).
+Negatives at network level: `c05_network_unbalanced_deadlocks` (F20: a process stops reading at the
+first closed in-port; the other upstream then blocks forever), `c05_network_needs_buffer` (F18, B = 0).
+
+What remains outside the theorem: the abstraction steps from the Go code to the counting model
+(a started task always finishes: C07 + C01/C09; one item per out-port per task; the main loop
+forwards only the head of its queue: C08) are tied by Tie A obligations per mechanism and by the
+harness (model's final counters and termination verdict vs real runs of random DAG workflows), not
+by a refinement proof; streaming (FIFO) connections and sub-stream joins are not in the model.
+`c05_needs_buffer` is the older snapshot-level form of F18.
 -/
 namespace SciVerif.C05
 
@@ -65,8 +78,86 @@ theorem c05_needs_buffer :
   ⟨{ B := 0, c := fun _ => 1, f := fun _ => 1, blk := fun v => if v.val = 0 then .write 1 else .read 0 },
    rfl, fun _ => Nat.le_refl _, by simp, by simp, by simp, by simp⟩
 
+/-! ### the network counting model -/
+open SciVerif.Net in
+/-- progress: a reachable state with an unreturned process is not stuck -/
+theorem c05_network_no_deadlock {n : Nat} (net : Net n) (N : Nat) (hbal : balanced net N) (hac : acyclic net)
+    (hB : 1 ≤ net.B) (ls : List (Lbl n)) (s : NSt n) (hr : run net (init n) ls = some s)
+    (v : Fin n) (hv : s.term v = false) : ∃ l s', step net s l = some s' := by
+  have hinv := run_inv net N hbal ls _ _ (inv_init net N) hr
+  apply Classical.byContradiction
+  intro hno
+  have hst : stuck net s := by
+    intro l
+    cases h : step net s l with
+    | none => rfl
+    | some s' => exact absurd ⟨l, s', h⟩ hno
+  have := no_stuck net N hbal hac hB s hinv hst v
+  simp [hv] at this
+
+open SciVerif.Net in
+theorem c05_network_runs_are_finite {n : Nat} (net : Net n) (N : Nat) (hbal : balanced net N)
+    (ls : List (Lbl n)) (s : NSt n) (hr : run net (init n) ls = some s) : ls.length ≤ n * (2 * N + 1) := by
+  have := run_mu net N hbal ls _ _ (inv_init net N) hr
+  rw [mu_init] at this
+  omega
+
+open SciVerif.Net in
+/-- a maximal run ends with every process returned, each having handled exactly `N` item sets -/
+theorem c05_network_complete {n : Nat} (net : Net n) (N : Nat) (hbal : balanced net N) (hac : acyclic net)
+    (hB : 1 ≤ net.B) (ls : List (Lbl n)) (s : NSt n) (hr : run net (init n) ls = some s)
+    (hmax : stuck net s) : ∀ v, s.term v = true ∧ s.c v = N ∧ s.f v = N := by
+  have hinv := run_inv net N hbal ls _ _ (inv_init net N) hr
+  intro v
+  have ht := no_stuck net N hbal hac hB s hinv hmax v
+  exact ⟨ht, hinv.tm v ht⟩
+
+open SciVerif.Net in
+/-- two sources feeding one process (diamond without the top) -/
+def netJoin (a b B : Nat) : Net 3 :=
+  { ins := fun v => if v.val = 2 then [⟨0, by omega⟩, ⟨1, by omega⟩] else [],
+    src := fun v => if v.val = 0 then a else b, B := B }
+
+open SciVerif.Net in
+/-- non-vacuity: the balanced join runs to completion -/
+example : balanced (netJoin 2 2 1) 2 ∧ acyclic (netJoin 2 2 1) := by
+  constructor
+  · intro v hv
+    have : v.val ≠ 2 := by intro h; simp [netJoin, h] at hv
+    simp [netJoin]
+  · intro v u hu
+    by_cases h : v.val = 2
+    · simp [netJoin, h] at hu; rcases hu with rfl | rfl <;> simp [h]
+    · simp [netJoin, h] at hu
+
+open SciVerif.Net in
+/-- negative (F20): source 0 emits 3 items, source 1 none; the joining process returns at once (its
+second in-port is closed and drained), source 0 fills the abandoned channel and blocks for ever -/
+theorem c05_network_unbalanced_deadlocks :
+    (run (netJoin 3 0 1) (init 3)
+        [.terminate ⟨1, by omega⟩, .terminate ⟨2, by omega⟩, .create ⟨0, by omega⟩, .create ⟨0, by omega⟩,
+         .create ⟨0, by omega⟩, .forward ⟨0, by omega⟩]).map
+      (fun s => (stuckB (netJoin 3 0 1) s, s.term ⟨0, by omega⟩, s.f ⟨0, by omega⟩, s.c ⟨0, by omega⟩)) =
+      some (true, false, 1, 3) := by decide
+
+open SciVerif.Net in
+def netChain2 (N B : Nat) : Net 2 :=
+  { ins := fun v => if v.val = 1 then [⟨0, by omega⟩] else [], src := fun _ => N, B := B }
+
+open SciVerif.Net in
+/-- negative (F18): with rendezvous channels (B = 0) in the counting model's reading of a send, the
+first item can never be handed over -/
+theorem c05_network_needs_buffer :
+    (run (netChain2 1 0) (init 2) [.create ⟨0, by omega⟩]).map
+      (fun s => (stuckB (netChain2 1 0) s, s.term ⟨0, by omega⟩, s.term ⟨1, by omega⟩)) = some (true, false, false) := by decide
+
 end SciVerif.C05
 
+#print axioms SciVerif.C05.c05_network_no_deadlock
+#print axioms SciVerif.C05.c05_network_runs_are_finite
+#print axioms SciVerif.C05.c05_network_complete
+#print axioms SciVerif.C05.c05_network_unbalanced_deadlocks
+#print axioms SciVerif.C05.c05_network_needs_buffer
 #print axioms SciVerif.C05.c05_run_waits_for_driver_and_sink
 #print axioms SciVerif.C05.c05_process_exit_all_forwarded
 #print axioms SciVerif.C05.c05_no_stuck_core
